@@ -157,7 +157,13 @@ func (b bound) String() string {
 // boundsOf derives the integer interval of the term with string key from atoms (only
 // comparisons of exactly that term with integer constants are used).
 func boundsOf(atoms []Atom, key string) bound {
-	b := bound{excluded: map[int64]bool{}}
+	return boundsFrom(atoms, key, bound{})
+}
+
+// boundsFrom is boundsOf starting from an assumed interval (an inductive invariant).
+func boundsFrom(atoms []Atom, key string, init bound) bound {
+	b := init
+	b.excluded = map[int64]bool{}
 	for _, a := range atoms {
 		c := a.Cond
 		taken := a.Taken
